@@ -74,6 +74,10 @@ def run_program(prog, yield_hook=None):
                 s = SimStream(tty=True)
                 qr.print_ascii(out=s, invert=step[1] == "invert", tty=step[1] == "tty")
                 res = s.text()
+            elif kind == "print_tty":
+                s = SimStream(tty=True)
+                qr.print_tty(out=s)
+                res = s.text()
             elif kind == "image":
                 img = qr.make_image(factory_class(step[1]))
                 if step[2] == "to_string" and hasattr(img, "to_string"):
@@ -362,12 +366,12 @@ class Sched:
             self.events[nxt].set()
 
     # ---- points -----------------------------------------------------------
-    def slow(self, me, frame):
+    def slow(self, me, fn, ln):
         """Hot path asked for attention: a trigger is due or the target line
-        was reached."""
+        (fn:ln) was reached."""
         s = self.S[me]
         ls = s[0]
-        if s[2] == frame.f_lineno and frame.f_code.co_filename.endswith(s[3]):
+        if s[2] == ln and fn.endswith(s[3]):
             s[4] -= 1
             if s[4] <= 0:
                 why = ["loc", me, s[3], s[2], None]
@@ -439,7 +443,8 @@ def make_tracer(sched, tid, roots, et_file, profile=None):
                 S[0] = c = S[0] + 1
                 if c >= S[1] or (S[2] == frame.f_lineno and
                                  frame.f_code.co_filename.endswith(S[3])):
-                    slow(tid, frame)
+                    slow(tid, frame.f_code.co_filename,
+                         frame.f_lineno if event == "line" else -2)
             return local_trace
     else:
         def local_trace(frame, event, arg):
@@ -466,6 +471,99 @@ def make_tracer(sched, tid, roots, et_file, profile=None):
     return global_trace
 
 
+MON_TOOL = 4
+
+
+def opcode_code_objects():
+    """Code objects that get instruction-level points (they touch
+    process-wide state)."""
+    out = []
+    try:
+        import qrcode.main as qm
+        out.append(qm.QRCode.makeImpl.__code__)
+    except Exception:  # noqa
+        pass
+    try:
+        from qrcode.compat.etree import ET
+        out.append(ET.register_namespace.__code__)
+    except Exception:  # noqa
+        pass
+    try:
+        import qrcode.image.svg as svg
+        for name in dir(svg):
+            cls = getattr(svg, name)
+            if isinstance(cls, type) and "__init__" in vars(cls):
+                out.append(vars(cls)["__init__"].__code__)
+    except Exception:  # noqa
+        pass
+    return out
+
+
+def install_monitor(sched, roots, et_file, profile=None):
+    """sys.monitoring backend (PEP 669): same points as the settrace backend at
+    roughly half the cost.  Untraced code locations disable themselves after
+    their first event."""
+    mon = sys.monitoring
+    E = mon.events
+    mon.use_tool_id(MON_TOOL, "threadsim")
+    cache = {}
+    SS = sched.S
+    slow = sched.slow
+    DIS = mon.DISABLE
+
+    def on_line(code, line):
+        flag = cache.get(code)
+        if flag is None:
+            fn = code.co_filename
+            flag = cache[code] = bool(fn == et_file or any(fn.startswith(r) for r in roots))
+        if not flag:
+            return DIS
+        tid = sched.current
+        if tid is None:
+            return None
+        S = SS[tid]
+        S[0] = c = S[0] + 1
+        if profile is not None:
+            key = (code.co_filename, line)
+            profile[key] = profile.get(key, 0) + 1
+        elif c >= S[1] or (S[2] == line and code.co_filename.endswith(S[3])):
+            slow(tid, code.co_filename, line)
+        return None
+
+    def on_instruction(code, offset):
+        tid = sched.current
+        if tid is None:
+            return None
+        S = SS[tid]
+        S[0] = c = S[0] + 1
+        if profile is None and c >= S[1]:
+            slow(tid, code.co_filename, -2)
+        return None
+
+    mon.register_callback(MON_TOOL, E.LINE, on_line)
+    mon.register_callback(MON_TOOL, E.INSTRUCTION, on_instruction)
+    for code in opcode_code_objects():
+        mon.set_local_events(MON_TOOL, code, E.INSTRUCTION)
+    mon.set_events(MON_TOOL, E.LINE)
+
+
+def uninstall_monitor():
+    mon = sys.monitoring
+    mon.set_events(MON_TOOL, 0)
+    for code in opcode_code_objects():
+        mon.set_local_events(MON_TOOL, code, 0)
+    mon.register_callback(MON_TOOL, mon.events.LINE, None)
+    mon.register_callback(MON_TOOL, mon.events.INSTRUCTION, None)
+    mon.free_tool_id(MON_TOOL)
+
+
+def backend():
+    b = os.environ.get("VERIF_TRACE", "settrace")
+    if b == "monitoring" and not hasattr(sys, "monitoring"):
+        b = "settrace"
+    return b
+
+
 def traced_roots():
     import qrcode
     from qrcode.compat.etree import ET
@@ -483,16 +581,20 @@ def run_threads(programs, prio, preemptions, strategy, rng_seed):
     results = [None] * n
     errors = [None] * n
 
+    use_mon = backend() == "monitoring"
+
     def body(tid):
-        tr = make_tracer(sched, tid, roots, et_file)
+        tr = None if use_mon else make_tracer(sched, tid, roots, et_file)
         sched.events[tid].wait()
-        sys.settrace(tr)
+        if tr is not None:
+            sys.settrace(tr)
         try:
             results[tid] = run_program(programs[tid])
         except BaseException as e:  # noqa - harness trouble
             errors[tid] = repr(e)
         finally:
-            sys.settrace(None)
+            if tr is not None:
+                sys.settrace(None)
             sched.finish(tid)
 
     threads = [threading.Thread(target=body, args=(t,), name=f"sim-{t}", daemon=True)
@@ -504,10 +606,15 @@ def run_threads(programs, prio, preemptions, strategy, rng_seed):
         t.start()
     sched.active = True
     first = sched.pick()
-    sched.current = first
     sched._arm(first)
+    if use_mon:
+        install_monitor(sched, roots, et_file)
+    sched.current = first
     sched.events[first].set()
-    if not sched.all_done.wait(timeout=150):
+    ok = sched.all_done.wait(timeout=150)
+    if use_mon:
+        uninstall_monitor()
+    if not ok:
         raise core.HarnessError("threadsim: threads did not finish (lost baton?)")
     for t in threads:
         t.join(timeout=10)
@@ -533,17 +640,23 @@ def ref_handler(spec):
         prof = {}
         sched = Sched(1, [0], [], {"kind": "explicit"}, random.Random(0))
         roots, et_file = traced_roots()
-        tr = make_tracer(sched, 0, roots, et_file, profile=prof)
+        use_mon = backend() == "monitoring"
         sched.threads = [threading.current_thread()]
         sched.current = 0
         sched.active = True
         TracedDict._hook = sched.access
         TracedDict._after_hook = sched.after_access
-        sys.settrace(tr)
+        if use_mon:
+            install_monitor(sched, roots, et_file, profile=prof)
+        else:
+            sys.settrace(make_tracer(sched, 0, roots, et_file, profile=prof))
         try:
             run_program(spec[1])
         finally:
-            sys.settrace(None)
+            if use_mon:
+                uninstall_monitor()
+            else:
+                sys.settrace(None)
             TracedDict._hook = None
             TracedDict._after_hook = None
         root = roots[0]
@@ -751,7 +864,7 @@ PAYLOADS = ["a", "HELLO", "12345", "thread data", b"\x00\x01", "x" * 30, "7" * 4
 
 
 def gen_program(rng, shared_versions, tier, second=False):
-    v = rng.choice(shared_versions) if rng.random() < 0.75 else rng.randint(1, 4)
+    v = rng.choice(shared_versions) if rng.random() < 0.8 else rng.randint(1, 3)
     kw = [["version", v]]
     auto_mask = rng.random() < 0.05
     if not auto_mask:
@@ -776,29 +889,58 @@ def gen_program(rng, shared_versions, tier, second=False):
         r = rng.random()
         if r < 0.15:
             prog.append(["get_matrix"])
-        elif r < 0.25:
+        elif r < 0.22:
             prog.append(["print_ascii", rng.choice(["plain", "invert", "tty"])])
+        elif r < 0.25:
+            prog.append(["print_tty"])
         elif r < 0.5:
             prog.append(["image", "svgfrag", rng.choice(["save", "to_string"])])
         elif r < 0.7:
             prog.append(["image", "svg", rng.choice(["save", "to_string"])])
         elif r < 0.85:
             prog.append(["image", "svgpath", "save"])
-        elif r < 0.93:
+        elif r < 0.92:
             prog.append(["image", "pypng", "save"])
-        else:
+        elif r < 0.97:
             prog.append(["image", "pil", "save"])
+        else:
+            prog.append(["image", "styled", "save"])
     if not second and rng.random() < 0.15:
         prog += gen_program(rng, shared_versions, tier, second=True)   # a second object
     return prog
 
 
+def gen_automask_case(rng, tier):
+    """Both/all threads choose the mask automatically for the same symbol size:
+    the eight trial compilations and the penalty scoring of one thread run
+    interleaved with another thread's."""
+    n = rng.choice([2, 2, 3])
+    v = rng.choice([1, 1, 1, 2])
+    threads = []
+    for _ in range(n):
+        kw = [["version", v], ["box_size", 1]]
+        if rng.random() < 0.3:
+            kw.append(["error_correction", rng.choice([0, 1, 2, 3])])
+        prog = [["new", kw], ["add", enc_payload(rng.choice(PAYLOADS[:5])), rng.choice([20, 0])],
+                ["make", rng.random() < 0.3]]
+        if rng.random() < 0.2:
+            prog.append(["get_matrix"])
+        threads.append(prog)
+    return threads
+
+
 def generate(rng, tier, opts=None):
     n = rng.choice([2, 2, 2, 3, 3, 4])
-    shared_versions = [rng.choice([1, 1, 2, 2, 3, 4] if tier == "quick" else [1, 2, 3, 4, 5, 7])
+    shared_versions = [rng.choice([1, 1, 1, 2, 2, 3] if tier == "quick" else [1, 1, 2, 2, 3, 4, 5, 7])
                        for _ in range(rng.choice([1, 1, 2]))]
     threads = [gen_program(rng, shared_versions, tier) for _ in range(n)]
+    automask = rng.random() < 0.12
+    if automask:
+        threads = gen_automask_case(rng, tier)
+        n = len(threads)
     r = rng.random()
+    if automask:
+        r = 0.3 + 0.58 * r       # accesses are not where this one hides: loc / pct / walk
     if r < 0.3:
         strategy = {"kind": "access", "p_access": rng.choice([0.5, 0.3, 0.15])}
     elif r < 0.6:
@@ -873,6 +1015,8 @@ def run_index(ctx, prop, tier, master, idx, opts):
 
 
 def _fails(ctx, case, key):
+    if core.min_expired():
+        return False
     v, _, _ = execute(ctx, case, EventLog(0))
     return any(x.key() == key for x in v)
 
